@@ -240,4 +240,177 @@ Section Tunnel.
     { unfold b1. replace 16%nat with (List.length can_h) at 1 by reflexivity. rewrite skipn_app, skipn_all, Nat.sub_diag. reflexivity. }
     rewrite Hsk. rewrite skipn_skipn_plus. f_equal. unfold msg_len. lia.
   Qed.
+
+  (* ---------- reading a message back ---------- *)
+  Lemma len_msg_hdr fd fr ts b : 16 <= blen b -> blen (msg_hdr fd fr ts b) = blen b.
+  Proof.
+    intros Hb. unfold msg_hdr. rewrite blen_set_all. unfold blen in *. rewrite app_length, skipn_length.
+    change (List.length can_h) with 16%nat. lia.
+  Qed.
+  Lemma len_msg_bytes fd fr ts b : frame_ok fd fr -> 16 <= blen b -> N.of_nat (List.length (msg_bytes fd fr ts b)) = msg_len fr.
+  Proof.
+    intros [Hlen [Hdl _]] Hb. unfold msg_bytes. rewrite !app_length, firstn_length, repeat_length.
+    pose proof (len_msg_hdr fd fr ts b Hb) as H. unfold blen in H, Hb.
+    unfold payload_of. rewrite firstn_length, Hdl. unfold msg_len. destruct fd; lia.
+  Qed.
+
+  (* a field of the message, read at the start of any buffer that begins with the message *)
+  Lemma msg_field fd fr ts b rest name : 16 <= blen b -> name_ok spec_Can name = true ->
+    ref_get spec_Can name (msg_bytes fd fr ts b ++ rest) =
+      match last_write name (all_sets fd fr ts) with Some v => v mod 2 ^ fwidth_of spec_Can name | None => ref_get spec_Can name can_h end.
+  Proof.
+    intros Hb Hok. pose proof (len_msg_hdr fd fr ts b Hb) as HL.
+    assert (H16 : blen (firstn 16 (msg_hdr fd fr ts b)) = 16) by (unfold blen in *; rewrite firstn_length; lia).
+    unfold msg_bytes. rewrite <- !app_assoc.
+    rewrite (ref_get_app spec_Can name _ _ spec_Can_in Hok) by (rewrite H16; cbn; lia).
+    rewrite <- (ref_get_app spec_Can name (firstn 16 (msg_hdr fd fr ts b)) (skipn 16 (msg_hdr fd fr ts b)) spec_Can_in Hok) by (rewrite H16; cbn; lia).
+    rewrite firstn_skipn. unfold msg_hdr.
+    rewrite (ref_get_set_all spec_Can name (all_sets fd fr ts) spec_Can_in Hok (all_sets_ok fd fr ts))
+      by (unfold blen in *; rewrite app_length, skipn_length; change (List.length can_h) with 16%nat; cbn [sp_hdr_len spec_Can]; lia).
+    destruct (last_write name (all_sets fd fr ts)); [reflexivity|].
+    apply (ref_get_app spec_Can name can_h _ spec_Can_in Hok). vm_compute. discriminate.
+  Qed.
+  Lemma msg_type fd fr ts b rest : 16 <= blen b ->
+    ref_get spec_AcfCommon "AVTP_ACF_FIELD_ACF_MSG_TYPE" (msg_bytes fd fr ts b ++ rest) = 1.
+  Proof.
+    intros Hb. change (ref_get spec_AcfCommon "AVTP_ACF_FIELD_ACF_MSG_TYPE" (msg_bytes fd fr ts b ++ rest))
+      with (ref_get spec_Can "AVTP_CAN_FIELD_ACF_MSG_TYPE" (msg_bytes fd fr ts b ++ rest)).
+    rewrite (msg_field fd fr ts b rest "AVTP_CAN_FIELD_ACF_MSG_TYPE" Hb eq_refl). destruct fd; reflexivity.
+  Qed.
+  Lemma msg_payload fd fr ts b rest : frame_ok fd fr -> 16 <= blen b ->
+    slice (msg_bytes fd fr ts b ++ rest) 16 (N.to_nat (cf_flen fr)) = payload_of fr.
+  Proof.
+    intros [Hlen [Hdl Hdn]] Hb. pose proof (len_msg_hdr fd fr ts b Hb) as HL.
+    assert (H16 : List.length (firstn 16 (msg_hdr fd fr ts b)) = 16%nat) by (unfold blen in *; rewrite firstn_length; lia).
+    assert (Hpl : List.length (payload_of fr) = N.to_nat (cf_flen fr)).
+    { unfold payload_of. rewrite firstn_length, Hdl. destruct fd; lia. }
+    assert (Hnp : normal (payload_of fr)).
+    { unfold payload_of, normal in *. apply Forall_forall. intros x Hx. rewrite Forall_forall in Hdn. apply Hdn. eapply In_firstn; eauto. }
+    unfold msg_bytes. rewrite <- !app_assoc. rewrite <- Hpl. replace 16 with (N.of_nat (List.length (firstn 16 (msg_hdr fd fr ts b)))) by (rewrite H16; reflexivity).
+    rewrite slice_app_mid. apply map_mod_normal. exact Hnp.
+  Qed.
+
+  Lemma flag_01 x m : flag x m = 0 \/ flag x m = 1.
+  Proof. unfold flag. destruct (N.land x m =? 0); [left|right]; reflexivity. Qed.
+  Lemma idof_lt fr : idof fr < 2 ^ 29.
+  Proof. unfold idof, CAN_EFF_MASK. change 0x1FFFFFFF with (N.ones 29). rewrite N.land_ones. apply N.mod_lt. discriminate. Qed.
+
+  Record msg_vals (fd:bool) (fr:cframe) (X:buf) : Prop := mkvals {
+    v_type : ref_get spec_AcfCommon "AVTP_ACF_FIELD_ACF_MSG_TYPE" X = 1;
+    v_id : ref_get spec_Can "AVTP_CAN_FIELD_CAN_IDENTIFIER" X = idof fr;
+    v_len : ref_get spec_Can "AVTP_CAN_FIELD_ACF_MSG_LENGTH" X = msg_len fr / 4;
+    v_pad : ref_get spec_Can "AVTP_CAN_FIELD_PAD" X = padof (cf_flen fr);
+    v_eff : ref_get spec_Can "AVTP_CAN_FIELD_EFF" X = flag (cf_canid fr) CAN_EFF_FLAG;
+    v_rtr : ref_get spec_Can "AVTP_CAN_FIELD_RTR" X = flag (cf_canid fr) CAN_RTR_FLAG;
+    v_brs : ref_get spec_Can "AVTP_CAN_FIELD_BRS" X = if fd then flag (cf_fflags fr) CANFD_BRS else 0;
+    v_fdf : ref_get spec_Can "AVTP_CAN_FIELD_FDF" X = if fd then 1 else 0;
+    v_esi : ref_get spec_Can "AVTP_CAN_FIELD_ESI" X = if fd then flag (cf_fflags fr) CANFD_ESI else 0;
+    v_payload : slice X 16 (N.to_nat (cf_flen fr)) = payload_of fr
+  }.
+
+  Lemma msg_values fd fr ts b rest : frame_ok fd fr -> 16 <= blen b -> msg_vals fd fr (msg_bytes fd fr ts b ++ rest).
+  Proof.
+    intros Hok Hb. destruct Hok as [Hlen Hrest].
+    assert (Hl64 : cf_flen fr <= 64) by (destruct fd; lia).
+    assert (Hp : padof (cf_flen fr) < 4) by (unfold padof; apply N.mod_lt; discriminate).
+    constructor.
+    - apply msg_type. exact Hb.
+    - rewrite (msg_field fd fr ts b rest "AVTP_CAN_FIELD_CAN_IDENTIFIER" Hb eq_refl).
+      replace (last_write "AVTP_CAN_FIELD_CAN_IDENTIFIER" (all_sets fd fr ts)) with (Some (idof fr)) by (destruct fd; reflexivity).
+      change (fwidth_of spec_Can "AVTP_CAN_FIELD_CAN_IDENTIFIER") with 29. apply N.mod_small. apply idof_lt.
+    - rewrite (msg_field fd fr ts b rest "AVTP_CAN_FIELD_ACF_MSG_LENGTH" Hb eq_refl).
+      replace (last_write "AVTP_CAN_FIELD_ACF_MSG_LENGTH" (all_sets fd fr ts)) with (Some (msg_len fr / 4)) by (destruct fd; reflexivity).
+      change (fwidth_of spec_Can "AVTP_CAN_FIELD_ACF_MSG_LENGTH") with 9. apply N.mod_small. unfold msg_len. lia.
+    - rewrite (msg_field fd fr ts b rest "AVTP_CAN_FIELD_PAD" Hb eq_refl).
+      replace (last_write "AVTP_CAN_FIELD_PAD" (all_sets fd fr ts)) with (Some (padof (cf_flen fr))) by (destruct fd; reflexivity).
+      change (fwidth_of spec_Can "AVTP_CAN_FIELD_PAD") with 2. apply N.mod_small. exact Hp.
+    - rewrite (msg_field fd fr ts b rest "AVTP_CAN_FIELD_EFF" Hb eq_refl).
+      replace (last_write "AVTP_CAN_FIELD_EFF" (all_sets fd fr ts)) with (Some (flag (cf_canid fr) CAN_EFF_FLAG)) by (destruct fd; reflexivity).
+      change (fwidth_of spec_Can "AVTP_CAN_FIELD_EFF") with 1. destruct (flag_01 (cf_canid fr) CAN_EFF_FLAG) as [H|H]; rewrite H; reflexivity.
+    - rewrite (msg_field fd fr ts b rest "AVTP_CAN_FIELD_RTR" Hb eq_refl).
+      replace (last_write "AVTP_CAN_FIELD_RTR" (all_sets fd fr ts)) with (Some (flag (cf_canid fr) CAN_RTR_FLAG)) by (destruct fd; reflexivity).
+      change (fwidth_of spec_Can "AVTP_CAN_FIELD_RTR") with 1. destruct (flag_01 (cf_canid fr) CAN_RTR_FLAG) as [H|H]; rewrite H; reflexivity.
+    - rewrite (msg_field fd fr ts b rest "AVTP_CAN_FIELD_BRS" Hb eq_refl). destruct fd.
+      + replace (last_write "AVTP_CAN_FIELD_BRS" (all_sets true fr ts)) with (Some (flag (cf_fflags fr) CANFD_BRS)) by reflexivity.
+        change (fwidth_of spec_Can "AVTP_CAN_FIELD_BRS") with 1. destruct (flag_01 (cf_fflags fr) CANFD_BRS) as [H|H]; rewrite H; reflexivity.
+      + reflexivity.
+    - rewrite (msg_field fd fr ts b rest "AVTP_CAN_FIELD_FDF" Hb eq_refl). destruct fd; reflexivity.
+    - rewrite (msg_field fd fr ts b rest "AVTP_CAN_FIELD_ESI" Hb eq_refl). destruct fd.
+      + replace (last_write "AVTP_CAN_FIELD_ESI" (all_sets true fr ts)) with (Some (flag (cf_fflags fr) CANFD_ESI)) by reflexivity.
+        change (fwidth_of spec_Can "AVTP_CAN_FIELD_ESI") with 1. destruct (flag_01 (cf_fflags fr) CANFD_ESI) as [H|H]; rewrite H; reflexivity.
+      + reflexivity.
+    - apply msg_payload; [split; assumption|exact Hb].
+  Qed.
+
+  (* ---------- the listener on one message ---------- *)
+  Lemma slice_sub b off a n : slice (sub b off) a n = slice b (off + a) n.
+  Proof.
+    unfold slice, sub. apply map_ext. intros i. unfold byte_at, nthN. rewrite nth_skipn'. f_equal. f_equal. lia.
+  Qed.
+
+  Lemma cpl_value fd fr X : frame_ok fd fr -> msg_vals fd fr X -> 16 <= blen X ->
+    can_payload_length LD ST cf_full X = Ok (cf_flen fr).
+  Proof.
+    intros [Hlen _] V Hb. unfold can_payload_length, getf_ded. cbn [cf_len cf_pad cf_full cf_spec].
+    rewrite (fgetd_exact E spec_Can spec_Can_in) by (first [exact Hb|reflexivity]). cbn [Paths.bind].
+    rewrite (fgetd_exact E spec_Can spec_Can_in) by (first [exact Hb|reflexivity]). cbn [Paths.bind].
+    rewrite (v_len _ _ _ V), (v_pad _ _ _ V). f_equal. cbn [sp_hdr_len spec_Can].
+    assert (Hl64 : cf_flen fr <= 64) by (destruct fd; lia).
+    unfold msg_len, padof. lia.
+  Qed.
+
+  Definition id_out (fr:cframe) : N :=
+    let id1 := if flag (cf_canid fr) CAN_EFF_FLAG =? 0 then idof fr else N.lor (idof fr) CAN_EFF_FLAG in
+    if flag (cf_canid fr) CAN_RTR_FLAG =? 0 then id1 else N.lor id1 CAN_RTR_FLAG.
+  Definition flags_out (fr:cframe) : N :=
+    N.lor (N.lor (if flag (cf_fflags fr) CANFD_BRS =? 0 then 0 else CANFD_BRS) CANFD_FDF)
+          (if flag (cf_fflags fr) CANFD_ESI =? 0 then 0 else CANFD_ESI).
+  Definition sff_ok (fr:cframe) : Prop := flag (cf_canid fr) CAN_EFF_FLAG = 0 -> idof fr <= 0x7FF.
+  Definition next_frame (fd:bool) (fs:fstate) (fr:cframe) : fstate :=
+    mkfs (id_out fr) (cf_flen fr) (if fd then flags_out fr else fs_flags fs) (upd (fs_data fs) 0 (payload_of fr)).
+
+  Lemma lloop_step fd pdu proc msg_length k mpb fs acc fr :
+    blen pdu = 1500 -> proc + msg_length <= 1500 -> frame_ok fd fr -> sff_ok fr ->
+    msg_vals fd fr (sub pdu (proc + mpb)) -> mpb + msg_len fr <= msg_length -> List.length (fs_data fs) = 64%nat ->
+    lloop LD ST E (S k) pdu fd proc msg_length mpb fs acc =
+    lloop LD ST E k pdu fd proc msg_length (mpb + msg_len fr) (next_frame fd fs fr) (render E fd (next_frame fd fs fr) :: acc).
+  Proof.
+    intros Hlen Hfit Hok Hsff V Hm Hd.
+    assert (Hl : cf_flen fr <= (if fd then 64 else 8)) by (destruct Hok; assumption).
+    assert (Hl64 : cf_flen fr <= 64) by (destruct fd; lia).
+    assert (Hp : padof (cf_flen fr) < 4) by (unfold padof; apply N.mod_lt; discriminate).
+    assert (Hml : 16 <= msg_len fr /\ msg_len fr <= 84 /\ msg_len fr mod 4 = 0 /\ cf_flen fr + 16 <= msg_len fr) by (unfold msg_len, padof; lia).
+    destruct Hml as [Hm16 [Hm84 [Hm4 Hmp]]].
+    cbn [lloop].
+    replace (mpb <? msg_length) with true by (symmetry; apply N.ltb_lt; lia). cbn [negb].
+    replace (msg_length - mpb <? 16) with false by (symmetry; apply N.ltb_ge; lia).
+    set (off := proc + mpb) in *.
+    assert (HbX : 16 <= blen (sub pdu off)) by (rewrite blen_sub, Hlen; unfold off; lia).
+    rewrite (get_ok E spec_AcfCommon) by (first [reflexivity | vm_compute; tauto | (rewrite Hlen; unfold off; cbn [sp_hdr_len spec_AcfCommon]; lia)]). cbn [lbind].
+    rewrite (v_type _ _ _ V). cbn [N.eqb Pos.eqb negb].
+    rewrite (get_ok E spec_Can) by (first [reflexivity | vm_compute; tauto | (rewrite Hlen; unfold off; cbn [sp_hdr_len spec_Can]; lia)]). cbn [lbind].
+    rewrite (get_ok E spec_Can) by (first [reflexivity | vm_compute; tauto | (rewrite Hlen; unfold off; cbn [sp_hdr_len spec_Can]; lia)]). cbn [lbind].
+    rewrite (cpl_value fd fr _ Hok V HbX). cbn [lbind].
+    rewrite (v_id _ _ _ V), (v_len _ _ _ V).
+    assert (Hacf : (msg_len fr / 4 * 4) mod 2 ^ 16 = msg_len fr) by lia. rewrite Hacf.
+    match goal with |- context [if ?c then (XDropped, _) else _] =>
+      replace c with false by (symmetry; repeat (apply orb_false_iff; split); apply N.ltb_ge; first [lia | destruct fd; lia]) end.
+    rewrite (get_ok E spec_Can) by (first [reflexivity | vm_compute; tauto | (rewrite Hlen; unfold off; cbn [sp_hdr_len spec_Can]; lia)]). cbn [lbind].
+    rewrite (v_eff _ _ _ V).
+    assert (Hsffb : (flag (cf_canid fr) CAN_EFF_FLAG =? 0) && (0x7FF <? idof fr) = false).
+    { destruct (flag (cf_canid fr) CAN_EFF_FLAG =? 0) eqn:Ef; [|reflexivity]. apply N.eqb_eq in Ef. specialize (Hsff Ef). cbn [andb]. apply N.ltb_ge. exact Hsff. }
+    rewrite Hsffb.
+    rewrite (get_ok E spec_Can) by (first [reflexivity | vm_compute; tauto | (rewrite Hlen; unfold off; cbn [sp_hdr_len spec_Can]; lia)]). cbn [lbind].
+    rewrite (v_rtr _ _ _ V).
+    assert (Hcopy : (cf_flen fr <=? (if fd then 64 else 8)) && (off + 16 + cf_flen fr <=? blen pdu) = true).
+    { apply andb_true_iff. split; apply N.leb_le; [exact Hl|rewrite Hlen; unfold off; lia]. }
+    assert (Hsl : slice pdu (off + 16) (N.to_nat (cf_flen fr)) = payload_of fr) by (rewrite <- slice_sub; exact (v_payload _ _ _ V)).
+    fold (id_out fr).
+    destruct fd.
+    - rewrite (get_ok E spec_Can) by (first [reflexivity | vm_compute; tauto | (rewrite Hlen; unfold off; cbn [sp_hdr_len spec_Can]; lia)]). cbn [lbind].
+      rewrite (get_ok E spec_Can) by (first [reflexivity | vm_compute; tauto | (rewrite Hlen; unfold off; cbn [sp_hdr_len spec_Can]; lia)]). cbn [lbind].
+      rewrite (get_ok E spec_Can) by (first [reflexivity | vm_compute; tauto | (rewrite Hlen; unfold off; cbn [sp_hdr_len spec_Can]; lia)]). cbn [lbind].
+      rewrite (v_brs _ _ _ V), (v_fdf _ _ _ V), (v_esi _ _ _ V). rewrite Hcopy, Hsl. reflexivity.
+    - rewrite Hcopy, Hsl. reflexivity.
+  Qed.
 End Tunnel.
